@@ -204,6 +204,9 @@ class SiteScan:
                     for ga, go in g.items():
                         if ga[0] == "lt" and ga[2] == a and ga[1][0] == "const" and go is True:
                             return True, ""
+                        # the catch-all arm of a `match a { 0 => .., 1 => .., _ => .. }`: a is not 0
+                        if ga == a and isinstance(go, tuple) and go[0] == "other" and any(x == ("val", 0) for x in go[1]):
+                            return True, ""
                 if a[0] == "const" and b_[0] == "const" and a[2] >= b_[2]:
                     return True, ""
                 # (c as usize) - K with c confined from below by comparisons on this path (a range pattern 'K'..=..)
@@ -331,6 +334,8 @@ def undischarged_in(ctx, body):
 
 # Audited sites that may legitimately appear in another shape after a behaviour-preserving edit.
 ALT_SHAPES = [
+    {"pattern": r"^<op_choice::Choice as operation::OperationControl>::get_(minimum_)?match_length\|unwrap:unwrap\(v\)$",
+     "reason": "the minimum (or first element) of the branches of a Choice taken through an iterator adaptor: Choice::new is called only when more than one branch was parsed, the sequence is not empty"},
     {"pattern": r"^re_matcher::ReMatcher::clear_captured_groups_beyond\|index:index(_mut)?\(a1\.state\.((start|end)_backref|capture_state\.(startn|endn)), (next\(v\) as Some\.0|<Enumerate<I> as Iterator>::next\(v\) as Some\.0\.0)\)$",
      "reason": "clear_captured_groups_beyond reading the arrays directly instead of through the accessors: the index ranges over the start array of the pair (CLEAR-BEYOND *|range), and the two arrays of a pair have the same length (back-references: allocated together with max_parens entries, MATCH-AT backref-alloc; groups: set_paren_start/set_paren_end extend both)"},
     {"pattern": r"^analyze_string::AnalyzeIter::process_matching_substring::\{closure#\d+\}::\{closure#0\}\|OverflowNeg<isize>\(a1\.0\)$",
